@@ -46,7 +46,9 @@ CHECKS = {
             'whole project signature is walked for dangling or stale '
             'references; the database is checked with PRAGMA '
             'foreign_key_list / foreign_key_check.',
-            'SQLite; deletions only of unreferenced models.', '3/C11'),
+            'SQLite; deletions only of unreferenced models; declared '
+            'primary keys, a reused app label and a referrer on migrations '
+            'are hand-parameterised variants.', '3/C11'),
     'C18': ('exploration',
             'statement-trace monitor counting table rebuilds per table in '
             'the optimised vs the one-at-a-time run',
@@ -64,7 +66,8 @@ CHECKS = {
             '== is compared with "empty difference both ways" on pairs and '
             'on systematically perturbed variants.',
             'Signature level only; placeholders replaced by concrete '
-            'initials.', '3/C05'),
+            'initials; an empty difference between signatures whose stored '
+            'form differs is reported (independent witness).', '3/C05'),
     'C06': ('exploration',
             'round-trip identity monitor on the real storage paths '
             '(serialize/json/OrderedDict/deserialize, Version.save/reload, '
@@ -73,7 +76,8 @@ CHECKS = {
             'back through the same code the evolver uses; equality, both '
             'diffs, re-serialisation and stored text stability are checked.',
             'SQLite; directly constructed signatures are compared modulo '
-            'JSON key order.', '3/C06'),
+            'JSON key order; legacy (version 1, pickled) rows with non-ASCII '
+            'names are read back through the Version model.', '3/C06'),
     'C13': ('exploration',
             'differential monitoring of renderer and loader: rendered hint '
             'text exec()d, loaded vs original mutations compared by '
@@ -107,7 +111,8 @@ CHECKS = {
             'recorded labels and stored signature are compared and a further '
             'run must execute nothing.',
             'Histories use the clean edit subset (see DESIGN 3/C04); '
-            'SQLite files.', '3/C04'),
+            'SQLite files; every third case targets a non-default database '
+            'next to a fully installed default (decoy mode).', '3/C04'),
     'C07': ('fault_enumeration',
             'fault injection at every statement index of real upgrade runs '
             '(execute_wrapper raising OperationalError), snapshot equality '
